@@ -126,5 +126,6 @@ func replay(in, out string) {
 
 // replayState carries what later families need between events.
 type replayState struct {
-	vars map[string]interface{}
+	vars  map[string]interface{}
+	iters *iterSet
 }
